@@ -1,6 +1,668 @@
-(* C19 — stub: model not yet built (the property is listed under not_applicable until it is). *)
-From Coq Require Import List ZArith Bool.
+(* C19 — Open, Config.Build and std-log redirection are all-or-nothing; URLs validated.
+
+   Model of (following the Go text of the fixed tree; the pre-fix variants are kept
+   as [..._orig] for the [_refuted] lemmas):
+     sink.go     normalizeScheme, sinkRegistry.RegisterSink / newSink,
+                 newFileSinkFromURL, newFileSinkFromPath
+     writer.go   open, Open, CombineWriteSyncers
+     encoder.go  RegisterEncoder, newEncoder
+     config.go   Config.Build, openSinks, buildEncoder
+     global.go   RedirectStdLog, RedirectStdLogAt, redirectStdLogAt, levelToFunc
+   net/url is an oracle: a path travels as the record [purl] of the fields that
+   url.Parse produced for it (the harness calls url.Parse itself), together with the
+   answer [u_ok] of the stubbed operating system / test factory for the argument the
+   path designates.  No proofs in this file. *)
+From Coq Require Import List ZArith Bool Lia.
+From Coq.Strings Require Import Byte.
 Import ListNotations.
 From Zap Require Import Base.Wire.
-Definition model (i : sx) : sx := SL [].
-Definition spec (i o : sx) : bool := false.
+
+Definition is_nil {A} (l : list A) : bool := match l with [] => true | _ => false end.
+
+(* ------------------------------------------------------------------ bytes *)
+Definition bz (b : byte) : Z := Z_of_byte b.
+Definition is_lower (b : byte) : bool := (97 <=? bz b)%Z && (bz b <=? 122)%Z.
+Definition is_upper (b : byte) : bool := (65 <=? bz b)%Z && (bz b <=? 90)%Z.
+Definition is_digit (b : byte) : bool := (48 <=? bz b)%Z && (bz b <=? 57)%Z.
+Definition is_letter (b : byte) : bool := is_lower b || is_upper b.
+Definition is_pmd (b : byte) : bool := Byte.eqb b x2e || Byte.eqb b x2b || Byte.eqb b x2d.   (* . + - *)
+Definition is_ascii (b : byte) : bool := (bz b <? 128)%Z.
+(* strings.ToLower restricted to ASCII input: 'A'..'Z' + 32 (Go's ASCII fast path) *)
+Definition lower_byte (b : byte) : byte := if is_upper b then byte_of_Z (bz b + 32) else b.
+Definition ascii_lower (s : bytes) : bytes := map lower_byte s.
+
+Definition s_file : bytes := [x66; x69; x6c; x65].
+Definition s_stdout : bytes := [x73; x74; x64; x6f; x75; x74].
+Definition s_stderr : bytes := [x73; x74; x64; x65; x72; x72].
+Definition s_localhost : bytes := [x6c; x6f; x63; x61; x6c; x68; x6f; x73; x74].
+Definition s_console : bytes := [x63; x6f; x6e; x73; x6f; x6c; x65].
+Definition s_json : bytes := [x6a; x73; x6f; x6e].
+
+(* ------------------------------------------------------------------ registries (Go maps) *)
+(* A Go map that is only ever extended with absent keys: an association list in
+   insertion order; lookup = first match. *)
+Definition amap (A : Type) := list (bytes * A).
+Fixpoint lookup {A} (r : amap A) (k : bytes) : option A :=
+  match r with
+  | [] => None
+  | (k', v) :: t => if bytes_eqb k' k then Some v else lookup t k
+  end.
+Definition keys {A} (r : amap A) : list bytes := map fst r.
+
+(* normalizeScheme.  [NPanic]: s[0] on the empty string (the caller excludes it). *)
+Inductive nres := NPanic | NErr | NOk (s : bytes).
+
+(* sink.go after "fix: validate sink schemes before lower-casing them":
+     first := s[0]; !isLetter(first) -> error
+     for i := 1..: letter | digit | . + -  else error
+     return strings.ToLower(s)            (ASCII only at this point)            *)
+Definition scheme_char (c : byte) : bool := is_letter c || is_digit c || is_pmd c.
+Definition normalize (s : bytes) : nres :=
+  match s with
+  | [] => NPanic
+  | first :: rest =>
+      if negb (is_letter first) then NErr
+      else if forallb scheme_char rest then NOk (ascii_lower s) else NErr
+  end.
+(* sink.go before the fix: s = strings.ToLower(s) FIRST ([lowered] is the oracle's
+   answer for strings.ToLower(s), which for non-ASCII input is not [ascii_lower]),
+   then the byte checks on the lower-cased string. *)
+Definition lchar_orig (c : byte) : bool := is_lower c || is_digit c || is_pmd c.
+Definition normalize_orig (lowered : bytes) : nres :=
+  match lowered with
+  | [] => NPanic
+  | first :: rest =>
+      if negb (is_lower first) then NErr
+      else if forallb lchar_orig rest then NOk lowered else NErr
+  end.
+
+(* sinkRegistry.RegisterSink: factories are identified by a number (0 = the
+   built-in file factory). *)
+Inductive rres := RPanic | ROk | RErrEmpty | RErrInvalid | RErrDup.
+Definition sreg := amap nat.
+Definition register_with (n : nres) (r : sreg) (f : nat) : rres * sreg :=
+  match n with
+  | NPanic => (RPanic, r)
+  | NErr => (RErrInvalid, r)
+  | NOk k => match lookup r k with
+             | Some _ => (RErrDup, r)
+             | None => (ROk, r ++ [(k, f)])
+             end
+  end.
+Definition register (r : sreg) (name : bytes) (f : nat) : rres * sreg :=
+  if is_nil name then (RErrEmpty, r) else register_with (normalize name) r f.
+Definition register_orig (r : sreg) (name lowered : bytes) (f : nat) : rres * sreg :=
+  if is_nil name then (RErrEmpty, r) else register_with (normalize_orig lowered) r f.
+(* newSinkRegistry(): RegisterSink("file", sr.newFileSinkFromURL) *)
+Definition sreg0 : sreg := snd (register [] s_file 0).
+Definition reg_all (r : sreg) (names : list (bytes * nat)) : sreg :=
+  fold_left (fun r nf => snd (register r (fst nf) (snd nf))) names r.
+
+(* encoder.go: RegisterEncoder / the initial map.  Values: (constructor id, whether
+   the constructor succeeds); ids 0/1 are the built-in console/json. *)
+Definition ereg := amap (nat * bool).
+Definition ereg0 : ereg := [(s_console, (0, true)); (s_json, (1, true))].
+Definition register_enc (r : ereg) (name : bytes) (v : nat * bool) : rres * ereg :=
+  if is_nil name then (RErrEmpty, r)
+  else match lookup r name with
+       | Some _ => (RErrDup, r)
+       | None => (ROk, r ++ [(name, v)])
+       end.
+Definition ereg_all (r : ereg) (names : list (bytes * (nat * bool))) : ereg :=
+  fold_left (fun r nv => snd (register_enc r (fst nv) (snd nv))) names r.
+
+Inductive eres := EMissingTime | ENoName | EUnknown | ECtorErr (id : nat) | EOk (id : nat).
+(* newEncoder(name, encoderConfig) *)
+Definition new_encoder (r : ereg) (timekey_set enctime_set : bool) (name : bytes) : eres :=
+  if timekey_set && negb enctime_set then EMissingTime
+  else if is_nil name then ENoName
+  else match lookup r name with
+       | None => EUnknown
+       | Some (id, ok) => if ok then EOk id else ECtorErr id
+       end.
+
+(* ------------------------------------------------------------------ URLs and newSink *)
+Record purl := mkU {
+  u_abs : bool;        (* filepath.IsAbs(raw) *)
+  u_raw : bytes;
+  u_perr : bool;       (* url.Parse returned an error *)
+  u_scheme : bytes;    (* u.Scheme (lower-cased by url.Parse) *)
+  u_user : bool;       (* u.User != nil *)
+  u_hostname : bytes;  (* u.Hostname() *)
+  u_port : bytes;      (* u.Port() *)
+  u_path : bytes;      (* u.Path *)
+  u_query : bytes;     (* u.RawQuery *)
+  u_frag : bytes;      (* u.Fragment *)
+  u_ok : bool          (* answer of the opener (stubbed openFile / test factory) *)
+}.
+
+Inductive skind := KTest | KFile | KStd.
+Inductive call := CFile (p : bytes) | CFact (id : nat).
+
+(* newFileSinkFromPath *)
+Definition file_from_path (p : bytes) (ok : bool) : list call * option skind :=
+  if bytes_eqb p s_stdout then ([], Some KStd)
+  else if bytes_eqb p s_stderr then ([], Some KStd)
+  else ([CFile p], if ok then Some KFile else None).
+(* newFileSinkFromURL *)
+Definition file_from_url (u : purl) : list call * option skind :=
+  if u_user u then ([], None)
+  else if negb (is_nil (u_frag u)) then ([], None)
+  else if negb (is_nil (u_query u)) then ([], None)
+  else if negb (is_nil (u_port u)) then ([], None)
+  else if negb (is_nil (u_hostname u)) && negb (bytes_eqb (u_hostname u) s_localhost) then ([], None)
+  else file_from_path (u_path u) (u_ok u).
+(* sinkRegistry.newSink *)
+Definition new_sink (r : sreg) (u : purl) : list call * option skind :=
+  if u_abs u then file_from_path (u_raw u) (u_ok u)
+  else if u_perr u then ([], None)
+  else
+    let sch := if is_nil (u_scheme u) then s_file else u_scheme u in
+    match lookup r sch with
+    | None => ([], None)
+    | Some 0 => file_from_url u
+    | Some id => ([CFact id], if u_ok u then Some KTest else None)
+    end.
+
+(* ------------------------------------------------------------------ open / Open *)
+Record sinkref := mkS { sid : nat; skd : skind }.
+Inductive ev := EWrite (id : nat) | EClose (id : nat).
+
+(* Close of one closer: nopCloserSink.Close does nothing to os.Stdout/os.Stderr *)
+Definition close1 (s : sinkref) : list ev := match skd s with KStd => [] | _ => [EClose (sid s)] end.
+(* closeAll := func() { for _, c := range closers { _ = c.Close() } } *)
+Definition close_all (cs : list sinkref) : list ev := concat (map close1 cs).
+
+(* the loop of open(): (writers = closers, number of errors appended, opener calls);
+   [next] numbers the sinks in order of creation *)
+Fixpoint open_loop (r : sreg) (paths : list purl) (next : nat) : list sinkref * nat * list call :=
+  match paths with
+  | [] => ([], 0, [])
+  | p :: t =>
+      let '(cs, res) := new_sink r p in
+      match res with
+      | None => let '(ws, ne, cl) := open_loop r t next in (ws, S ne, cs ++ cl)
+      | Some k => let '(ws, ne, cl) := open_loop r t (S next) in (mkS next k :: ws, ne, cs ++ cl)
+      end
+  end.
+
+Record opened := mkO {
+  o_writers : option (list sinkref);   (* None: (nil, nil, err) *)
+  o_sinks : list sinkref;              (* every sink that was created *)
+  o_nerr : nat;
+  o_calls : list call;
+  o_evs : list ev                      (* what open itself did to the sinks *)
+}.
+Definition open (r : sreg) (paths : list purl) (next : nat) : opened :=
+  let '(ws, ne, cl) := open_loop r paths next in
+  if Nat.eqb ne 0 then mkO (Some ws) ws ne cl []
+  else mkO None ws ne cl (close_all ws).
+
+(* one Write on CombineWriteSyncers(writers...): every writer gets it (no writers:
+   io.Discard) *)
+Definition combine_write (ws : list sinkref) : list ev := map (fun s => EWrite (sid s)) ws.
+Fixpoint writes (n : nat) (ws : list sinkref) : list ev :=
+  match n with 0 => [] | S m => combine_write ws ++ writes m ws end.
+
+(* ------------------------------------------------------------------ Config.Build *)
+Record bcfg := mkB {
+  c_timekey : bool; c_enctime : bool; c_encoding : bytes;
+  c_level : bool;                       (* cfg.Level != (AtomicLevel{}) *)
+  c_out : list purl; c_errp : list purl
+}.
+Record sinks_res := mkR {
+  r_ws : option (list sinkref * list sinkref);
+  r_sinks : list sinkref; r_calls : list call; r_evs : list ev
+}.
+(* cfg.openSinks *)
+Definition open_sinks (r : sreg) (cfg : bcfg) : sinks_res :=
+  let o1 := open r (c_out cfg) 0 in
+  match o_writers o1 with
+  | None => mkR None (o_sinks o1) (o_calls o1) (o_evs o1)
+  | Some ws1 =>
+      let o2 := open r (c_errp cfg) (length ws1) in
+      match o_writers o2 with
+      | None => mkR None (ws1 ++ o_sinks o2) (o_calls o1 ++ o_calls o2) (o_evs o2 ++ close_all ws1)
+      | Some ws2 => mkR (Some (ws1, ws2)) (ws1 ++ ws2) (o_calls o1 ++ o_calls o2) []
+      end
+  end.
+
+Inductive bcls := BOk | BMissingTime | BNoName | BUnknownEnc | BCtorErr | BSink | BLevel.
+Record built := mkBt {
+  b_cls : bcls;
+  b_ctor : list nat;                    (* user constructors invoked (ids >= 2) *)
+  b_ws : option (list sinkref * list sinkref);
+  b_sinks : list sinkref; b_calls : list call; b_evs : list ev
+}.
+Definition enc_cls (e : eres) : bcls * list nat :=
+  match e with
+  | EMissingTime => (BMissingTime, [])
+  | ENoName => (BNoName, [])
+  | EUnknown => (BUnknownEnc, [])
+  | ECtorErr id => (BCtorErr, [id])
+  | EOk id => (BOk, if Nat.leb 2 id then [id] else [])
+  end.
+(* Config.Build after "fix: check Config.Level before opening sinks" *)
+Definition build (er : ereg) (r : sreg) (cfg : bcfg) : built :=
+  let '(ec, ids) := enc_cls (new_encoder er (c_timekey cfg) (c_enctime cfg) (c_encoding cfg)) in
+  match ec with
+  | BOk =>
+      if negb (c_level cfg) then mkBt BLevel ids None [] [] []
+      else
+        let s := open_sinks r cfg in
+        match r_ws s with
+        | None => mkBt BSink ids None (r_sinks s) (r_calls s) (r_evs s)
+        | Some p => mkBt BOk ids (Some p) (r_sinks s) (r_calls s) (r_evs s)
+        end
+  | _ => mkBt ec ids None [] [] []
+  end.
+(* Config.Build before the fix: the level is checked after openSinks, and the
+   sinks are not closed on that return *)
+Definition build_orig (er : ereg) (r : sreg) (cfg : bcfg) : built :=
+  let '(ec, ids) := enc_cls (new_encoder er (c_timekey cfg) (c_enctime cfg) (c_encoding cfg)) in
+  match ec with
+  | BOk =>
+      let s := open_sinks r cfg in
+      match r_ws s with
+      | None => mkBt BSink ids None (r_sinks s) (r_calls s) (r_evs s)
+      | Some p =>
+          if negb (c_level cfg) then mkBt BLevel ids None (r_sinks s) (r_calls s) (r_evs s)
+          else mkBt BOk ids (Some p) (r_sinks s) (r_calls s) (r_evs s)
+      end
+  | _ => mkBt ec ids None [] [] []
+  end.
+
+(* ------------------------------------------------------------------ std-log redirection *)
+Inductive lw := WUser | WZap (lvl : Z) | WStderr.
+Record stdlog := mkL { l_flags : Z; l_prefix : bytes; l_writer : lw }.
+(* levelToFunc: a switch over the seven named levels *)
+Definition level_to_func (l : Z) : option Z :=
+  match l with
+  | (-1)%Z => Some l | 0%Z => Some l | 1%Z => Some l | 2%Z => Some l
+  | 3%Z => Some l | 4%Z => Some l | 5%Z => Some l
+  | _ => None
+  end.
+(* the returned closure: SetFlags(flags); SetPrefix(prefix); SetOutput(os.Stderr) *)
+Definition restore (saved : Z * bytes) (st : stdlog) : stdlog := mkL (fst saved) (snd saved) WStderr.
+(* redirectStdLogAt after "fix: validate the level before touching the standard logger" *)
+Definition redirect (st : stdlog) (l : Z) : option (Z * bytes) * stdlog :=
+  match level_to_func l with
+  | None => (None, st)
+  | Some f => (Some (l_flags st, l_prefix st), mkL 0 [] (WZap f))
+  end.
+(* before the fix: SetFlags(0); SetPrefix("") happen before levelToFunc *)
+Definition redirect_orig (st : stdlog) (l : Z) : option (Z * bytes) * stdlog :=
+  let st1 := mkL 0 [] (l_writer st) in
+  match level_to_func l with
+  | None => (None, st1)
+  | Some f => (Some (l_flags st, l_prefix st), mkL 0 [] (WZap f))
+  end.
+(* RedirectStdLog = redirectStdLogAt(l, InfoLevel) (the error branch panics) *)
+Definition redirect_info (st : stdlog) : option (Z * bytes) * stdlog := redirect st 0.
+
+(* ================================================================== specification *)
+(* RFC 3986 3.1: ALPHA *( ALPHA / DIGIT / "+" / "-" / "." ), ASCII *)
+Definition valid_scheme (s : bytes) : bool :=
+  match s with
+  | [] => false
+  | c :: t => is_letter c && forallb (fun c => is_letter c || is_digit c || is_pmd c) t
+  end.
+(* net/url getScheme (the scheme as written, before lower-casing) *)
+Fixpoint get_scheme_aux (first : bool) (s acc : bytes) : bytes :=
+  match s with
+  | [] => []
+  | c :: t =>
+      if is_letter c then get_scheme_aux false t (acc ++ [c])
+      else if is_digit c || is_pmd c then (if first then [] else get_scheme_aux false t (acc ++ [c]))
+      else if Byte.eqb c x3a then (if first then [] else acc)
+      else []
+  end.
+Definition get_scheme (raw : bytes) : bytes := get_scheme_aux true raw [].
+
+(* the factory a scheme designates: the first valid registered name that equals it
+   up to ASCII case ("file" is always the built-in) *)
+Fixpoint spec_find (names : list (bytes * nat)) (sch : bytes) : option nat :=
+  match names with
+  | [] => None
+  | (n, id) :: t => if valid_scheme n && bytes_eqb (ascii_lower n) sch then Some id else spec_find t sch
+  end.
+Definition spec_factory (names : list (bytes * nat)) (sch : bytes) : option nat :=
+  if bytes_eqb sch s_file then Some 0 else spec_find names sch.
+
+Definition file_url_ok (u : purl) : bool :=
+  negb (u_user u) && is_nil (u_port u) && is_nil (u_query u) && is_nil (u_frag u)
+  && (is_nil (u_hostname u) || bytes_eqb (u_hostname u) s_localhost).
+Definition spec_file (p : bytes) (ok : bool) : list call * option skind :=
+  if bytes_eqb p s_stdout || bytes_eqb p s_stderr then ([], Some KStd)
+  else ([CFile p], if ok then Some KFile else None).
+(* what one path must do: the opener calls it causes and the sink it yields *)
+Definition spec_path (names : list (bytes * nat)) (u : purl) : list call * option skind :=
+  if u_abs u then spec_file (u_raw u) (u_ok u)
+  else if u_perr u then ([], None)
+  else
+    let sch := ascii_lower (get_scheme (u_raw u)) in
+    if is_nil sch || bytes_eqb sch s_file then
+      (if file_url_ok u then spec_file (u_path u) (u_ok u) else ([], None))
+    else match spec_find names sch with
+         | Some id => ([CFact id], if u_ok u then Some KTest else None)
+         | None => ([], None)
+         end.
+Definition spec_calls (names : list (bytes * nat)) (ps : list purl) : list call :=
+  concat (map (fun u => fst (spec_path names u)) ps).
+Definition spec_kinds (names : list (bytes * nat)) (ps : list purl) : list skind :=
+  concat (map (fun u => match snd (spec_path names u) with Some k => [k] | None => [] end) ps).
+Definition spec_nfail (names : list (bytes * nat)) (ps : list purl) : nat :=
+  length (filter (fun u => match snd (spec_path names u) with Some _ => false | None => true end) ps).
+
+(* ================================================================== wire *)
+(* name   = (#name #lowered)          lowered = strings.ToLower(name) (oracle; used by the _orig model only)
+   purl   = (abs #raw perr #scheme user #host #hostname #port #path #query #frag ok #opaque)
+   call   = (0 #path) | (1 id)        stat = (kind writes closes)   kind: 0 test 1 file 2 std
+   std    = (lines-on-stdout+stderr either-closed)                 stats list only the closable sinks
+   kind 0 Open:     (0 (name..) (purl..) nw)                      obs (err nerr (call..) (stat..) (stat..) std)
+   kind 1 Build:    (1 (name..) ((#enc ok)..) tk et #encoding lvl (purl..) (purl..) nw)
+                                                                   obs (cls (ctor-id..) (call..) (stat..) (stat..) std)
+   kind 2 Redirect: (2 which flags #prefix level)                  obs (err f1 #p1 w1 delivered f2 #p2 w2)
+   kind 3 sink registry:    (3 (op..))  op = (0 #name #lowered) | (1 purl)
+                                         obs ((0 cls (key..)) | (1 err (call..) (key..)) ..)
+   kind 4 encoder registry: (4 (op..))  op = (0 #name) | (1 #name)
+                                         obs ((0 cls (key..)) | (1 cls (ctor-id..) (key..)) ..)            *)
+Definition dec_purl (s : sx) : purl :=
+  mkU (sx_bool (sx_nth s 0)) (sx_b (sx_nth s 1)) (sx_bool (sx_nth s 2)) (sx_b (sx_nth s 3))
+      (sx_bool (sx_nth s 4)) (sx_b (sx_nth s 6)) (sx_b (sx_nth s 7)) (sx_b (sx_nth s 8))
+      (sx_b (sx_nth s 9)) (sx_b (sx_nth s 10)) (sx_bool (sx_nth s 11)).
+Fixpoint number {A} (i : nat) (l : list A) : list (A * nat) :=
+  match l with [] => [] | a :: t => (a, i) :: number (S i) t end.
+Definition dec_names (s : sx) : list (bytes * nat) := number 1 (map (fun n => sx_b (sx_nth n 0)) (sx_l s)).
+Definition dec_encs (s : sx) : list (bytes * (nat * bool)) :=
+  map (fun p => (fst (fst p), (snd p, snd (fst p))))
+      (number 2 (map (fun n => (sx_b (sx_nth n 0), sx_bool (sx_nth n 1))) (sx_l s))).
+
+Definition enc_call (c : call) : sx :=
+  match c with CFile p => SL [SZ 0; SB p] | CFact id => SL [SZ 1; of_nat id] end.
+Definition kind_code (k : skind) : Z := match k with KTest => 0 | KFile => 1 | KStd => 2 end.
+Definition enc_stat (k : skind) (w c : nat) : sx := SL [SZ (kind_code k); of_nat w; of_nat c].
+
+Fixpoint count (f : ev -> bool) (l : list ev) : nat :=
+  match l with [] => 0 | e :: t => (if f e then 1 else 0) + count f t end.
+Definition is_write (id : nat) (e : ev) : bool := match e with EWrite j => Nat.eqb j id | _ => false end.
+Definition is_close (id : nat) (e : ev) : bool := match e with EClose j => Nat.eqb j id | _ => false end.
+Definition stat_of (E : list ev) (s : sinkref) : sx :=
+  enc_stat (skd s) (count (is_write (sid s)) E) (count (is_close (sid s)) E).
+(* os.Stdout / os.Stderr are shared destinations: the harness observes them in
+   aggregate (lines received by both, whether either was closed); every other sink
+   is observed individually, in order of creation *)
+Definition closable (s : sinkref) : bool := match skd s with KStd => false | _ => true end.
+Definition is_std (k : skind) : bool := match k with KStd => true | _ => false end.
+Definition stats (E : list ev) (l : list sinkref) : sx := SL (map (stat_of E) (filter closable l)).
+Definition sum_count (f : nat -> ev -> bool) (E : list ev) (l : list sinkref) : nat :=
+  fold_right (fun s a => count (f (sid s)) E + a) 0 l.
+Definition std_pair (E : list ev) (l : list sinkref) : sx :=
+  let sl := filter (fun s => negb (closable s)) l in
+  SL [of_nat (sum_count is_write E sl); of_nat (sum_count is_close E sl)].
+Definition spec_stats (kinds : list skind) (w c : nat) : sx :=
+  SL (map (fun k => enc_stat k w c) (filter (fun k => negb (is_std k)) kinds)).
+Definition spec_std (kinds : list skind) (nw : nat) : sx :=
+  SL [of_nat (nw * length (filter is_std kinds)); SZ 0].
+
+(* --- kind 0 --- *)
+Definition model_open (i : sx) : sx :=
+  let names := dec_names (sx_nth i 1) in
+  let ps := map dec_purl (sx_l (sx_nth i 2)) in
+  let nw := sx_n (sx_nth i 3) in
+  let o := open (reg_all sreg0 names) ps 0 in
+  match o_writers o with
+  | Some ws =>
+      (* harness: nw Writes on the combined writer, snapshot, closeAll(), snapshot *)
+      let E1 := o_evs o ++ writes nw ws in
+      let E2 := E1 ++ close_all ws in
+      SL [SZ 0; of_nat (o_nerr o); SL (map enc_call (o_calls o)); stats E1 ws; stats E2 (o_sinks o); std_pair E2 (o_sinks o)]
+  | None =>
+      SL [SZ 1; of_nat (o_nerr o); SL (map enc_call (o_calls o)); SL []; stats (o_evs o) (o_sinks o); std_pair (o_evs o) (o_sinks o)]
+  end.
+
+Fixpoint sx_mem (x : sx) (l : list sx) : bool :=
+  match l with [] => false | y :: t => sx_eqb x y || sx_mem x t end.
+Definition all_in (xs ys : list sx) : bool := forallb (fun x => sx_mem x ys) xs.
+(* every listed sink: no write, closed exactly once *)
+Definition undone (s : sx) : bool := sx_eqb s (SL [SZ (sx_z (sx_nth s 0)); SZ 0; SZ 1]).
+Definition std_untouched : sx := SL [SZ 0; SZ 0].
+Definition spec_open (i o : sx) : bool :=
+  let names := dec_names (sx_nth i 1) in
+  let ps := map dec_purl (sx_l (sx_nth i 2)) in
+  let nw := sx_n (sx_nth i 3) in
+  let calls := map enc_call (spec_calls names ps) in
+  if Nat.eqb (spec_nfail names ps) 0 then
+    sx_eqb (sx_nth o 0) (SZ 0) && sx_eqb (sx_nth o 1) (SZ 0) && sx_eqb (sx_nth o 2) (SL calls)
+    && sx_eqb (sx_nth o 3) (spec_stats (spec_kinds names ps) nw 0)
+    && sx_eqb (sx_nth o 4) (spec_stats (spec_kinds names ps) nw 1)
+    && sx_eqb (sx_nth o 5) (spec_std (spec_kinds names ps) nw)
+  else
+    sx_eqb (sx_nth o 0) (SZ 1) && all_in (sx_l (sx_nth o 2)) calls
+    && sx_eqb (sx_nth o 3) (SL []) && forallb undone (sx_l (sx_nth o 4))
+    && sx_eqb (sx_nth o 5) std_untouched.
+
+(* --- kind 1 --- *)
+Definition dec_cfg (i : sx) : bcfg :=
+  mkB (sx_bool (sx_nth i 3)) (sx_bool (sx_nth i 4)) (sx_b (sx_nth i 5)) (sx_bool (sx_nth i 6))
+      (map dec_purl (sx_l (sx_nth i 7))) (map dec_purl (sx_l (sx_nth i 8))).
+Definition cls_code (c : bcls) : Z :=
+  match c with BOk => 0 | BMissingTime => 1 | BNoName => 2 | BUnknownEnc => 3 | BCtorErr => 4 | BSink => 5 | BLevel => 6 end.
+Definition model_build_with (bld : ereg -> sreg -> bcfg -> built) (i : sx) : sx :=
+  let names := dec_names (sx_nth i 1) in
+  let encs := dec_encs (sx_nth i 2) in
+  let cfg := dec_cfg i in
+  let nw := sx_n (sx_nth i 9) in
+  let b := bld (ereg_all ereg0 encs) (reg_all sreg0 names) cfg in
+  let hdr := [SZ (cls_code (b_cls b)); SL (map of_nat (b_ctor b)); SL (map enc_call (b_calls b))] in
+  match b_ws b with
+  | Some (ws1, ws2) =>
+      (* harness: nw entries, each one Write on the output and one on the error output *)
+      let E1 := b_evs b ++ writes nw ws1 ++ writes nw ws2 in
+      SL (hdr ++ [stats E1 (ws1 ++ ws2); stats E1 (b_sinks b); std_pair E1 (b_sinks b)])
+  | None => SL (hdr ++ [SL []; stats (b_evs b) (b_sinks b); std_pair (b_evs b) (b_sinks b)])
+  end.
+Definition model_build := model_build_with build.
+
+(* the encoder a name designates: built-ins, else the first registered non-empty name *)
+Fixpoint spec_enc_find (encs : list (bytes * (nat * bool))) (name : bytes) : option (nat * bool) :=
+  match encs with
+  | [] => None
+  | (n, v) :: t => if negb (is_nil n) && bytes_eqb n name then Some v else spec_enc_find t name
+  end.
+Definition spec_enc (encs : list (bytes * (nat * bool))) (name : bytes) : option (nat * bool) :=
+  if bytes_eqb name s_console then Some (0, true)
+  else if bytes_eqb name s_json then Some (1, true)
+  else spec_enc_find encs name.
+(* the problems a configuration has, as error classes *)
+Definition spec_problems (encs : list (bytes * (nat * bool))) (names : list (bytes * nat)) (cfg : bcfg) : list Z :=
+  (if c_timekey cfg && negb (c_enctime cfg) then [1%Z] else [])
+  ++ (if is_nil (c_encoding cfg) then [2%Z]
+      else match spec_enc encs (c_encoding cfg) with
+           | None => [3%Z] | Some (_, false) => [4%Z] | Some (_, true) => [] end)
+  ++ (if Nat.eqb (spec_nfail names (c_out cfg) + spec_nfail names (c_errp cfg)) 0 then [] else [5%Z])
+  ++ (if c_level cfg then [] else [6%Z]).
+Definition spec_build (i o : sx) : bool :=
+  let names := dec_names (sx_nth i 1) in
+  let encs := dec_encs (sx_nth i 2) in
+  let cfg := dec_cfg i in
+  let nw := sx_n (sx_nth i 9) in
+  let probs := spec_problems encs names cfg in
+  let calls := map enc_call (spec_calls names (c_out cfg) ++ spec_calls names (c_errp cfg)) in
+  let kinds := spec_kinds names (c_out cfg) ++ spec_kinds names (c_errp cfg) in
+  if is_nil probs then
+    sx_eqb (sx_nth o 0) (SZ 0) && sx_eqb (sx_nth o 2) (SL calls)
+    && sx_eqb (sx_nth o 3) (spec_stats kinds nw 0)
+    && sx_eqb (sx_nth o 4) (spec_stats kinds nw 0)
+    && sx_eqb (sx_nth o 5) (spec_std kinds nw)
+  else
+    existsb (Z.eqb (sx_z (sx_nth o 0))) probs && all_in (sx_l (sx_nth o 2)) calls
+    && sx_eqb (sx_nth o 3) (SL []) && forallb undone (sx_l (sx_nth o 4))
+    && sx_eqb (sx_nth o 5) std_untouched.
+
+(* --- kind 2 --- *)
+Definition lw_code (w : lw) : Z := match w with WUser => 0 | WZap _ => 1 | WStderr => 2 end.
+Definition no_delivery : Z := (-99)%Z.
+Definition model_redirect_with (red : stdlog -> Z -> option (Z * bytes) * stdlog) (i : sx) : sx :=
+  let which := sx_z (sx_nth i 1) in
+  let st := mkL (sx_z (sx_nth i 2)) (sx_b (sx_nth i 3)) WUser in
+  let l := if Z.eqb which 0 then 0%Z else sx_z (sx_nth i 4) in
+  let '(r, st1) := red st l in
+  let deliv := match l_writer st1 with WZap f => f | _ => no_delivery end in
+  let st2 := match r with Some saved => restore saved st1 | None => st1 end in
+  SL [of_bool (match r with None => true | Some _ => false end);
+      SZ (l_flags st1); SB (l_prefix st1); SZ (lw_code (l_writer st1)); SZ deliv;
+      SZ (l_flags st2); SB (l_prefix st2); SZ (lw_code (l_writer st2))].
+Definition model_redirect := model_redirect_with redirect.
+Definition named_level (l : Z) : bool := (-1 <=? l)%Z && (l <=? 5)%Z.
+Definition spec_redirect (i o : sx) : bool :=
+  let which := sx_z (sx_nth i 1) in
+  let flags := sx_z (sx_nth i 2) in
+  let prefix := sx_b (sx_nth i 3) in
+  let l := if Z.eqb which 0 then 0%Z else sx_z (sx_nth i 4) in
+  if named_level l then
+    sx_eqb o (SL [SZ 0; SZ 0; SB []; SZ 1; SZ l; SZ flags; SB prefix; SZ 2])
+  else
+    sx_eqb o (SL [SZ 1; SZ flags; SB prefix; SZ 0; SZ no_delivery; SZ flags; SB prefix; SZ 0]).
+
+(* --- canonical key order (sort.Strings: byte-wise lexicographic) --- *)
+Fixpoint bytes_leb (a b : bytes) : bool :=
+  match a, b with
+  | [], _ => true
+  | _ :: _, [] => false
+  | x :: a', y :: b' => if Byte.eqb x y then bytes_leb a' b' else (bz x <? bz y)%Z
+  end.
+Fixpoint insert_key (k : bytes) (l : list bytes) : list bytes :=
+  match l with
+  | [] => [k]
+  | h :: t => if bytes_leb k h then k :: l else h :: insert_key k t
+  end.
+Definition sort_keys (l : list bytes) : list bytes := fold_right insert_key [] l.
+Definition enc_keys (l : list bytes) : sx := of_blist (sort_keys l).
+Definition rres_code (r : rres) : Z :=
+  match r with ROk => 0 | RErrEmpty => 1 | RErrInvalid => 2 | RErrDup => 3 | RPanic => 9 end.
+
+(* --- kind 3 --- *)
+(* [reg_fn r name lowered id] : the registration function under test *)
+Fixpoint model_sreg_ops (reg_fn : sreg -> bytes -> bytes -> nat -> rres * sreg)
+    (r : sreg) (id : nat) (ops : list sx) : list sx :=
+  match ops with
+  | [] => []
+  | op :: t =>
+      if Z.eqb (sx_z (sx_nth op 0)) 0 then
+        let '(c, r') := reg_fn r (sx_b (sx_nth op 1)) (sx_b (sx_nth op 2)) id in
+        SL [SZ 0; SZ (rres_code c); enc_keys (keys r')] :: model_sreg_ops reg_fn r' (S id) t
+      else
+        let '(cs, res) := new_sink r (dec_purl (sx_nth op 1)) in
+        SL [SZ 1; of_bool (match res with None => true | Some _ => false end); SL (map enc_call cs); enc_keys (keys r)]
+        :: model_sreg_ops reg_fn r (S id) t
+  end.
+Definition model_sreg (i : sx) : sx :=
+  SL (model_sreg_ops (fun r n _ id => register r n id) sreg0 1 (sx_l (sx_nth i 1))).
+Definition model_sreg_orig (i : sx) : sx :=
+  SL (model_sreg_ops register_orig sreg0 1 (sx_l (sx_nth i 1))).
+
+(* spec state: the (name, id) pairs of all registrations attempted so far, and the
+   keys accepted so far *)
+Definition spec_reg_cls (names : list (bytes * nat)) (name : bytes) : Z :=
+  if is_nil name then 1
+  else if negb (valid_scheme name) then 2
+  else match spec_factory names (ascii_lower name) with Some _ => 3 | None => 0 end.
+Fixpoint spec_sreg_ops (names : list (bytes * nat)) (ks : list bytes) (id : nat) (ops obs : list sx) : bool :=
+  match ops, obs with
+  | [], [] => true
+  | op :: t, ob :: obs' =>
+      if Z.eqb (sx_z (sx_nth op 0)) 0 then
+        let name := sx_b (sx_nth op 1) in
+        let c := spec_reg_cls names name in
+        let ks' := if Z.eqb c 0 then ks ++ [ascii_lower name] else ks in
+        sx_eqb ob (SL [SZ 0; SZ c; enc_keys ks']) && spec_sreg_ops (names ++ [(name, id)]) ks' (S id) t obs'
+      else
+        let '(cs, res) := spec_path names (dec_purl (sx_nth op 1)) in
+        sx_eqb ob (SL [SZ 1; of_bool (match res with None => true | Some _ => false end); SL (map enc_call cs); enc_keys ks])
+        && spec_sreg_ops names ks (S id) t obs'
+  | _, _ => false
+  end.
+Definition spec_sreg (i o : sx) : bool := spec_sreg_ops [] [s_file] 1 (sx_l (sx_nth i 1)) (sx_l o).
+
+(* --- kind 4 --- *)
+(* lookup goes through Config{Encoding: name}.Build() with no paths and a level *)
+Fixpoint model_ereg_ops (r : ereg) (id : nat) (ops : list sx) : list sx :=
+  match ops with
+  | [] => []
+  | op :: t =>
+      let name := sx_b (sx_nth op 1) in
+      if Z.eqb (sx_z (sx_nth op 0)) 0 then
+        let '(c, r') := register_enc r name (id, true) in
+        SL [SZ 0; SZ (rres_code c); enc_keys (keys r')] :: model_ereg_ops r' (S id) t
+      else
+        let b := build r sreg0 (mkB false false name true [] []) in
+        SL [SZ 1; SZ (cls_code (b_cls b)); SL (map of_nat (b_ctor b)); enc_keys (keys r)] :: model_ereg_ops r (S id) t
+  end.
+Definition model_ereg (i : sx) : sx := SL (model_ereg_ops ereg0 2 (sx_l (sx_nth i 1))).
+Fixpoint spec_ereg_ops (encs : list (bytes * (nat * bool))) (ks : list bytes) (id : nat) (ops obs : list sx) : bool :=
+  match ops, obs with
+  | [], [] => true
+  | op :: t, ob :: obs' =>
+      let name := sx_b (sx_nth op 1) in
+      if Z.eqb (sx_z (sx_nth op 0)) 0 then
+        let c := if is_nil name then 1%Z else match spec_enc encs name with Some _ => 3%Z | None => 0%Z end in
+        let ks' := if Z.eqb c 0 then ks ++ [name] else ks in
+        sx_eqb ob (SL [SZ 0; SZ c; enc_keys ks']) && spec_ereg_ops (encs ++ [(name, (id, true))]) ks' (S id) t obs'
+      else
+        let exp := if is_nil name then SL [SZ 1; SZ 2; SL []; enc_keys ks]
+                   else match spec_enc encs name with
+                        | None => SL [SZ 1; SZ 3; SL []; enc_keys ks]
+                        | Some (cid, true) => SL [SZ 1; SZ 0; SL (if Nat.leb 2 cid then [of_nat cid] else []); enc_keys ks]
+                        | Some (cid, false) => SL [SZ 1; SZ 4; SL [of_nat cid]; enc_keys ks]
+                        end in
+        sx_eqb ob exp && spec_ereg_ops encs ks (S id) t obs'
+  | _, _ => false
+  end.
+Definition spec_ereg (i o : sx) : bool := spec_ereg_ops [] [s_console; s_json] 2 (sx_l (sx_nth i 1)) (sx_l o).
+
+(* --- dispatch on the case kind --- *)
+Definition model (i : sx) : sx :=
+  match sx_z (sx_nth i 0) with
+  | 0%Z => model_open i
+  | 1%Z => model_build i
+  | 2%Z => model_redirect i
+  | 3%Z => model_sreg i
+  | 4%Z => model_ereg i
+  | _ => SL []
+  end.
+(* the pre-fix code, for the replay of the [_refuted] witnesses *)
+Definition model_orig (i : sx) : sx :=
+  match sx_z (sx_nth i 0) with
+  | 0%Z => model_open i
+  | 1%Z => model_build_with build_orig i
+  | 2%Z => model_redirect_with redirect_orig i
+  | 3%Z => model_sreg_orig i
+  | 4%Z => model_ereg i
+  | _ => SL []
+  end.
+Definition spec (i o : sx) : bool :=
+  match sx_z (sx_nth i 0) with
+  | 0%Z => spec_open i o
+  | 1%Z => spec_build i o
+  | 2%Z => spec_redirect i o
+  | 3%Z => spec_sreg i o
+  | 4%Z => spec_ereg i o
+  | _ => false
+  end.
+
+(* well-formed cases: a known kind, and the net/url oracle's scheme is the written
+   scheme lower-cased (monitored by the harness; an oracle assumption) *)
+Definition wf_purl (u : purl) : bool :=
+  u_abs u || u_perr u || bytes_eqb (u_scheme u) (ascii_lower (get_scheme (u_raw u))).
+Definition wf_op3 (op : sx) : bool :=
+  Z.eqb (sx_z (sx_nth op 0)) 0 || wf_purl (dec_purl (sx_nth op 1)).
+Definition wf (i : sx) : bool :=
+  match sx_z (sx_nth i 0) with
+  | 0%Z => forallb wf_purl (map dec_purl (sx_l (sx_nth i 2)))
+  | 1%Z => forallb wf_purl (map dec_purl (sx_l (sx_nth i 7))) && forallb wf_purl (map dec_purl (sx_l (sx_nth i 8)))
+  | 2%Z => true
+  | 3%Z => forallb wf_op3 (sx_l (sx_nth i 1))
+  | 4%Z => true
+  | _ => false
+  end.
